@@ -30,16 +30,20 @@ def r11_1(ctx, prog, crate):
     if not ctx.anchor("R11.1", "TscTimestamp::duration_since", 1 if b else 0, 1):
         return
     ctx.saw(b)
-    cs = [c for c in b.live_calls() if c.callee == "core::num::checked_sub"]
-    if not ctx.check(len(cs) == 1, "R11.1", ["duration_since", "checked_sub"], "checked_sub sites: %d" % len(cs), b.where(0)):
+    # two equivalent idioms for "b - a, or zero when b < a": checked_sub + None => default, or saturating_sub (0 ticks => 0 ps)
+    cs = [c for c in b.live_calls() if c.callee in ("core::num::checked_sub", "core::num::saturating_sub")]
+    if not ctx.check(len(cs) == 1, "R11.1", ["duration_since", "checked_sub"], "checked_sub / saturating_sub sites: %d (the tick difference must be taken once, before the conversion)" % len(cs), b.where(0)):
         return
     c = cs[0]
+    saturating = c.callee.endswith("saturating_sub")
     a0 = {z.label() for z in b.prov.op_src(c.args[0])}
     a1 = {z.label() for z in b.prov.op_src(c.args[1])}
     ctx.check(a0 == {"param:self.value"} and a1 == {"param:" + b.param_name(2) + ".value"}, "R11.1", ["duration_since", "later-minus-earlier"],
               "difference computed as %s - %s, expected self.value - earlier.value" % (sorted(a0), sorted(a1)), c.line())
-    sw = tables.switch_on_call_result(b, c)
-    if ctx.check(sw is not None, "R11.1", ["duration_since", "match-on-difference"], "no match on the checked_sub result", c.line()):
+    sw = None if saturating else tables.switch_on_call_result(b, c)
+    if saturating:
+        ctx.ok("R11.1", "duration_since|earlier-after-later-is-zero (saturating_sub: 0 ticks convert to 0 ps)")
+    elif ctx.check(sw is not None, "R11.1", ["duration_since", "match-on-difference"], "no match on the checked_sub result", c.line()):
         arms, otherwise = tables.arm_targets(sw[1])
         none_t = arms.get(0, otherwise)
         some_t = arms.get(1, otherwise)
@@ -64,6 +68,10 @@ def r11_1(ctx, prog, crate):
         inner = b.prov.op_src(da["o"])
         okc = any(z.kind == "call" and z.b == c.bb for z in inner) and not any(z.kind == "binop" for z in inner)
     ctx.check(okc, "R11.1", ["duration_since", "difference-widened-before-multiply"], "the first factor is not `diff as u128`", b.where(mbi))
+    if okc:
+        st = da["o"].get("p", da["o"].get("c", {})).get("ty")
+        ctx.check(st in ("u64", "u32", "u16", "u8"), "R11.1", ["duration_since", "difference-at-most-64-bits"],
+                  "the tick difference has type %s: the no-overflow argument needs diff < 2^64" % st, b.where(mbi), detail={"type": st})
     k = const_int(m["rv"]["b"])
     ctx.check(k == 10 ** 12, "R11.1", ["duration_since", "picos-per-second"], "the scale constant is %s, expected 10^12" % k, b.where(mbi), detail={"constant": k})
     # division applied to the product
